@@ -88,7 +88,7 @@ impl Prop for C02 {
     fn stages(&self, tier: Tier) -> Vec<Stage<Case>> {
         let s = (gen::file_spec(tier), vec(any::<u16>(), 300), vec(gen::probe(), 50))
             .prop_map(|(spec, picks, probes)| Case { spec, picks, probes });
-        vec![stage("files", s, tier.pick(1500, 40_000)).shrink(800)]
+        vec![stage("files", s, tier.pick(1500, 15_000)).shrink(800)]
     }
 
     fn rule(&self) -> String {
